@@ -1929,14 +1929,18 @@ class C09(HistorySpec):
     pid = "C09"
     oracle_fn = staticmethod(hist.oracle_c09)
     coq_files = ["Properties/C09.v"]
-    theorems = ["C09_failing_run_writes_nothing", "C09_required_local_audit_kept", "C09_required_imported_audit_kept",
-                "C09_required_wildcard_kept", "C09_required_publisher_kept"]
-    level_text = ("Theorems C09_required_*_kept (every entry a chosen certification path uses — local audit, imported audit, imported "
-                  "wildcard audit, publisher record — survives get_store_updates in every mode) and C09_failing_run_writes_nothing, "
-                  "about the model of get_store_updates / cmd_check whose update modes are re-read from main.rs on every run. PARTIAL: "
-                  "the end-to-end statement (the written store re-resolves to Success under --locked) is stated in Properties/C09.v but "
-                  "not yet proved; it is exercised by running the real `cargo vet --locked` on the files every successful unlocked check "
-                  "of every generated history wrote.")
+    theorems = ["C09_locked_check_succeeds_after_unlocked_check", "C09_failing_run_writes_nothing", "C09_required_local_audit_kept",
+                "C09_required_imported_audit_kept", "C09_required_wildcard_kept", "C09_required_publisher_kept"]
+    level_text = ("END-TO-END theorem C09_locked_check_succeeds_after_unlocked_check: for every graph, criteria table and loaded store, "
+                  "if the model's unlocked cmd_check succeeds and commits s1 then the locked check of s1 has no errors. Proved by edge "
+                  "simulation: the update's own searches succeed, every origin on every chosen path is recorded in the required-entry "
+                  "map, every recorded entry survives get_store_updates (audits, imported audits, wildcard audits x publisher records, "
+                  "trusted x publisher, unpublished links through sort+dedup, exemptions through their narrowing), so each path edge has a "
+                  "counterpart with the same endpoints still carrying the criterion in the written store; criteria implied by a searched "
+                  "minimal criterion follow because edge criteria sets are closed; no violation conflict can appear because audits are "
+                  "only removed and exemptions only narrowed. Plus C09_failing_run_writes_nothing and the per-category kept theorems. "
+                  "Hypothesis store_ok (acyclic table, defined exemption criteria, an entry per crate name) is evaluated in its "
+                  "executable form on every store the real commands load.")
     level_note = ("Model = coq/Update.v + Commands.v; every get_store_updates/resolve call inside the real commands is tapped and "
                   "compared with the model. TOML round-trip (C14) and the lock-freshness check of a locked load are exercised, not proved here.")
     design_ref = "DESIGN.md §4 C09"
@@ -1950,11 +1954,16 @@ class C10(HistorySpec):
     pid = "C10"
     oracle_fn = staticmethod(hist.oracle_c10)
     coq_files = ["Properties/C10.v"]
-    theorems = ["C10_regenerate_search_never_fails", "C10_prune_keeps_required_entries", "C10_failing_crate_keeps_stored_imports"]
-    level_text = ("Theorems C10_prune_keeps_required_entries (for all 8 flag combinations of prune, each category keeps the entries "
-                  "on chosen paths), C10_regenerate_search_never_fails (in RegenerateExemptions mode the path search cannot fail, from "
-                  "search_spec) and C10_failing_crate_keeps_stored_imports. PARTIAL: `vets s -> vets (k s)` is stated but not yet "
-                  "proved end to end; it is exercised on every history by probing the verdict before and after each real command.")
+    theorems = ["C10_update_preserves_vetting", "C10_prune_preserves", "C10_regenerate_imports_preserves", "C10_certify_cleanup_preserves",
+                "C10_trust_cleanup_preserves", "C10_import_cleanup_preserves", "C10_init_and_regenerate_certify",
+                "C10_regenerate_search_never_fails", "C10_prune_keeps_required_entries", "C10_failing_crate_keeps_stored_imports"]
+    level_text = ("END-TO-END theorems: vets s -> vets (k s) for k = prune with all 8 flag combinations, regenerate imports, the "
+                  "clean-up updates after certify / trust / import, and in general any store update whose searches are not in "
+                  "RegenerateExemptions mode (C10_update_preserves_vetting; same edge-simulation proof as C09, update modes re-read "
+                  "from main.rs on every run); C10_init_and_regenerate_certify: after init / regenerate exemptions every required "
+                  "criterion of every third-party crate whose audit graph had no violation conflict has a certifying chain in the "
+                  "written store (the search cannot fail in that mode, fresh exemptions are written for what it needed). Not proved: "
+                  "that a regenerated exemption cannot itself collide with a violation entry (the property excludes violation conflicts).")
     level_note = C09.level_note
     design_ref = "DESIGN.md §4 C10"
     assumptions = C09.assumptions
